@@ -51,7 +51,7 @@ class SpyTabularRegressor(RegressorMixin, SkBase):
         X = np.array(X, dtype=float, copy=True)
         lg = LOGS[self.log_id]
         call_no = sum(1 for e in lg if e["op"] == "predict")
-        out = np.array([[PRED_BASE + 10 * call_no + j + 1000 * r for j in range(self.n_outputs_)] for r in range(X.shape[0])])
+        out = np.array([[PRED_BASE + 0.25 + 10 * call_no + j + 1000 * r for j in range(self.n_outputs_)] for r in range(X.shape[0])])
         lg.append({"op": "predict", "name": self.name, "obj": _uid(self), "fit_no": self.fit_no_, "X": X, "out": out.copy()})
         if not self.multi_:
             out = out[:, 0]
